@@ -137,6 +137,8 @@ COMBINATORS = {
     "option::Option::<T>::and_then": (OPTION, {"Some": ("call",), "None": ("unit", OPTION, "None")}),
     "option::Option::<T>::unwrap_or_else": (OPTION, {"Some": ("payload",), "None": ("call0",)}),
     "option::Option::<T>::ok_or_else": (OPTION, {"Some": ("keep", RESULT, "Ok"), "None": ("wrapcall0", RESULT, "Err")}),
+    "option::Option::<T>::or_else": (OPTION, {"Some": ("keep", OPTION, "Some"), "None": ("call0",)}),
+    "result::Result::<T, E>::or_else": (RESULT, {"Ok": ("keep", RESULT, "Ok"), "Err": ("call",)}),
     "bool::<impl bool>::then": ("bool", {"true": ("wrapcall0", OPTION, "Some"), "false": ("unit", OPTION, "None")}),
     "option::Option::<T>::map_or": (OPTION, {"Some": ("call",), "None": ("default",)}),
     "option::Option::<T>::is_some_and": (OPTION, {"Some": ("call",), "None": ("false",)}),
